@@ -129,7 +129,13 @@ func genScript(rng *rand.Rand, jg *JGen, id string, more bool) *CallScript {
 		case k < 6:
 			cs.Steps = append(cs.Steps, Step{Op: "error", Name: c01ErrNames[rng.Intn(len(c01ErrNames))]})
 		case k < 7:
-			cs.Steps = append(cs.Steps, Step{Op: "builtin", Name: []string{"InterfaceNotFound", "MethodNotFound", "MethodNotImplemented", "InvalidParameter"}[rng.Intn(4)], Arg: "arg-" + id})
+			// the argument comes from a small pool that the calls to unknown methods and interfaces draw from as well: the
+			// same string then travels in different standard errors, on this and on other connections
+			arg := "arg-" + id
+			if rng.Intn(2) == 0 {
+				arg = c01SharedArgs[rng.Intn(len(c01SharedArgs))]
+			}
+			cs.Steps = append(cs.Steps, Step{Op: "builtin", Name: []string{"InterfaceNotFound", "MethodNotFound", "MethodNotImplemented", "InvalidParameter"}[rng.Intn(4)], Arg: arg})
 		default:
 			cs.Steps = append(cs.Steps, Step{Op: "reply"})
 		}
@@ -148,6 +154,9 @@ func genScript(rng *rand.Rand, jg *JGen, id string, more bool) *CallScript {
 	}
 	return cs
 }
+
+// c01SharedArgs: [0:4] method names, [4:7] interface names (none of them registered), then parameter names
+var c01SharedArgs = []string{"Frobnicate", "Ping", "M", "Nope", "org.example.missing", "org.unknown.x", "com.example.absent", "parameters", "method", "interface"}
 
 var c01Flags = []string{"", "", "", "m", "m", "o", "u", "mo", "mu", "ou", "mou", "M", "O", "mO"}
 
@@ -170,9 +179,17 @@ func genConnScript(rng *rand.Rand, jg *JGen, tag string, maxCalls int, allowFail
 			cs.Calls = append(cs.Calls, GenCall{Method: "org.varlink.service.GetInterfaceDescription", Flags: fl,
 				Params: []string{`{"interface":"org.example.script"}`, `{"interface":"nope"}`, `{}`, "", `{"interface":5}`, `{"interface":"org.varlink.service"}`, `null`, `[1]`}[rng.Intn(8)]})
 		case k < 15:
-			cs.Calls = append(cs.Calls, GenCall{Method: "org.varlink.service.Nope" + id, Flags: fl})
+			m := "Nope" + id
+			if rng.Intn(2) == 0 {
+				m = c01SharedArgs[rng.Intn(4)]
+			}
+			cs.Calls = append(cs.Calls, GenCall{Method: "org.varlink.service." + m, Flags: fl})
 		case k < 17:
-			cs.Calls = append(cs.Calls, GenCall{Method: "org.unknown.iface" + tag + ".M", Flags: fl, Script: genScript(rng, jg, id, false)})
+			ifc := "org.unknown.iface" + tag
+			if rng.Intn(2) == 0 {
+				ifc = c01SharedArgs[4+rng.Intn(3)]
+			}
+			cs.Calls = append(cs.Calls, GenCall{Method: ifc + ".M", Flags: fl, Script: genScript(rng, jg, id, false)})
 		case k < 18 && rng.Intn(2) == 0:
 			// frames without a method member: answered like a call without method
 			cs.Calls = append(cs.Calls, GenCall{Raw: c04NoMethod[rng.Intn(len(c04NoMethod))]})
